@@ -343,13 +343,13 @@ structure WMI where
   states : List Int
 
 /-- the validation stage of `weighted_mi`: returns the state counts and their maximum.
-Not modelled (listed in the trusted base of `harness/props/c18.py`):
-* the default state counts are built as `np.full(F, features.max()+1, dtype='int16')`: the sum is taken in the
-  FEATURE dtype and stored as int16, so it wraps for an id equal to the dtype maximum or ≥ 32767; the model
-  uses `max + 1` as an integer (the harness exercises the edge and reports a wrap as a violation);
-* the trailing `np.clip(mi_mtx, 0, inf)`: the driver prints the unclipped terms and the harness applies
-  `max(0, ·)` before comparing (the exact value is ≥ 0 for uniform weights by `weighted_uniform_eq_counts`
-  and `mi_nonneg`; for general weights non-negativity is checked on the real outputs only). -/
+The default state counts are `np.full(F, int(features.max()) + 1)`: a Python integer, modelled as `m + 1`
+(the harness exercises ids equal to the feature dtype's maximum, where a sum taken in the feature dtype
+would wrap).
+Not modelled (listed in the trusted base of `harness/props/c18.py`): the trailing
+`np.clip(mi_mtx, 0, inf)` — the driver prints the unclipped terms and the harness applies `max(0, ·)`
+before comparing (the exact value is ≥ 0 for uniform weights by `weighted_uniform_eq_counts` and
+`mi_nonneg`; for general weights non-negativity is checked on the real outputs only). -/
 def wmiValidate (X : Arr) (wl : List Rat) (nfs : Option (List Int)) : Except Err (List Int × Int) := do
   if wl.any (· < 0) then throw .assertion
   if ratSum wl = 0 then throw .assertion
